@@ -7,6 +7,7 @@ import (
 	"errors"
 	"flag"
 	"fmt"
+	"github.com/goark/errs"
 	"io"
 	"os"
 	"reflect"
@@ -34,9 +35,28 @@ type chunkReader struct {
 
 var errReader = errors.New("injected reader failure")
 
+type customReadError struct{ op string }
+
+func (e *customReadError) Error() string { return "custom read error during " + e.op }
+
+// the errors a failing reader fails with: whatever their type and whatever they wrap, the export must report the
+// invalid-template sentinel and deliver nothing
+var readerErrors = []error{
+	errReader,
+	io.ErrUnexpectedEOF,
+	io.ErrClosedPipe,
+	&customReadError{"fetch"},
+	fmt.Errorf("fetch template: %w", io.ErrUnexpectedEOF),
+	errs.New("connection reset"),
+	errs.Wrap(io.ErrUnexpectedEOF),
+	fmt.Errorf("fetch template: %w", errs.Wrap(io.ErrClosedPipe, errs.WithContext("url", "x"))),
+	errs.Wrap(errReader, errs.WithCause(io.ErrNoProgress)),
+	io.ErrShortBuffer,
+}
+
 func (c *chunkReader) Read(p []byte) (int, error) {
 	if c.failAt >= 0 && c.n >= c.failAt {
-		return 0, errReader
+		return 0, readerErrors[(c.failAt+len(c.data)+c.size)%len(readerErrors)]
 	}
 	if len(c.data) == 0 {
 		return 0, io.EOF
